@@ -450,3 +450,276 @@ class Density2dArguments(Contract):
 
 
 CONTRACTS.append(Density2dArguments())
+
+
+# ---------------------------------------------------------------------------------------------
+class Density2d(Contract):
+    """C05, deductive core: density2d on explicit per-axis bin edges (strictly increasing), for all event sets, all grid
+    shapes, all gate fractions and all smoothing widths.
+
+    What is proved of the real body (every obligation is a formula over the run's inputs and the values the function computed,
+    read from its locals at the end of the symbolic run):
+      * event mapping: an event is kept iff it lies inside the grid and the bin (a, b) it lies in -- by the documented rule
+        e[a] <= v < e[a+1], last edge closed -- is set in the bin mask (returned, or handed in for re-gating); hence bins are
+        kept or dropped whole, no out-of-grid event is kept, and re-gating with the returned edges and mask gives the same set;
+      * target: the code's n is ceil(f * #in-grid events), where #in-grid is the cardinality of the filter by the in-grid predicate;
+      * cumulative cut: with c_k the cumulative histogram count over the bins in density order, c_Nidx >= n and
+        (Nidx == 0 or c_(Nidx-1) < n); the bin mask is exactly the first Nidx+1 bins of that order;
+      * density order: every kept bin has normalised smoothed density >= every dropped bin;
+      * refusal: ValueError iff f outside [0, 1]; f*n == 0 keeps nothing.
+    Library steps are contracts (A-LIB): np.histogram2d (non-negative counts H; A-COUNT: H[a,b] is the number of events whose
+    bin is (a,b), which is what links "cumulative histogram count" to "number of kept events"), np.digitize bracket property,
+    np.argsort permutation/sortedness, np.cumsum recurrence, scipy gaussian_filter (uninterpreted), skimage find_contours
+    (abstracted to no contours: the contour output is not covered)."""
+    target = 'FlowCal.gate.density2d'
+    property_ids = ('C05',)
+    config = {'call_contracts': io_specs.summaries()}
+    max_paths = 400
+    frame_echo = ('bin_mask',)      # re-gating reports the bin mask it was given (the gated sample itself must share nothing)
+    assumptions = ('density2d: bin edges strictly increasing with at least two edges per axis; valid channel positions; N >= 2 '
+                   '(refusals are the Density2dArguments contract)',
+                   'A-COUNT: np.histogram2d(x, y, [xe, ye])[a, b] = number of events whose documented bin is (a, b) '
+                   '(assumed contract of NumPy; ties the cumulative histogram counts to numbers of kept events)',
+                   'contour output (skimage.measure.find_contours + np.interp) is not modelled: find_contours returns no contours')
+
+    def cases(self):
+        out = []
+        for cont in ('ndarray', 'FCSData'):
+            out.append({'label': '%s-edges-gate' % cont, 'container': cont, 'kind': 'gate'})
+            out.append({'label': '%s-edges-regate' % cont, 'container': cont, 'kind': 'regate'})
+        return out
+
+    def setup(self, I, case):
+        c = I.ctx
+        N, D = sym_dims(I, 'N', 'D')
+        c.assume(z3.And(N >= 2, D >= 2))
+        data = sym_fcs(I, 'data', N, D) if case['container'] == 'FCSData' else sym_array(I, 'data', [N, D], 'float')
+        c0, c1 = c.fresh_int('ch0'), c.fresh_int('ch1')
+        c.assume(z3.And(-D <= c0, c0 < D, -D <= c1, c1 < D))
+        Lx, Ly = c.fresh_int('Lx'), c.fresh_int('Ly')
+        c.assume(z3.And(Lx >= 2, Ly >= 2))
+        xe = sym_array(I, 'xe', [Lx], 'float')
+        ye = sym_array(I, 'ye', [Ly], 'float')
+        p, q = z3.Ints('ed_p ed_q')
+        for e, L in ((xe, Lx), (ye, Ly)):
+            c.assume(z3.ForAll([p, q], z3.Implies(z3.And(0 <= p, p < q, q < L), e.ufn(p) < e.ufn(q)),
+                               patterns=[z3.MultiPattern(e.ufn(p), e.ufn(q))]))
+        f = c.fresh_real('f')
+        sigma = c.fresh_real('sigma')
+        c.assume(sigma > 0)
+        aux = {'N': N, 'D': D, 'data': data, 'c0': c0, 'c1': c1, 'Lx': Lx, 'Ly': Ly, 'xe': xe, 'ye': ye, 'f': f, 'sigma': sigma}
+        kw = {'channels': stamp(Seq('list', [SV(c0, 'int'), SV(c1, 'int')])), 'bins': stamp(Seq('list', [xe, ye])),
+              'gate_fraction': SV(f, 'real'), 'sigma': SV(sigma, 'real'), 'full_output': True}
+        if case['kind'] == 'regate':
+            bm = sym_array(I, 'bm', [I.np.norm_dim(Lx - 1), I.np.norm_dim(Ly - 1)], 'bool')
+            aux['bm'] = bm
+            kw['bin_mask'] = bm
+        return [data], kw, aux
+
+    def expected_outcomes(self, case):
+        return ['return'] if case['kind'] == 'regate' else ['return', 'raise:ValueError']
+
+    def small_hints(self, case, aux):
+        return [z3.And(aux['N'] <= n, aux['D'] <= 3, aux['Lx'] <= 4, aux['Ly'] <= 4) for n in (3, 6)]
+
+    def witness(self, model, case, aux):
+        w = data_witness(model, aux['data'], case['container'])
+        ex, _ = __import__('contracts.common', fromlist=['array_witness']).array_witness(model, aux['xe'])
+        ey, _ = __import__('contracts.common', fromlist=['array_witness']).array_witness(model, aux['ye'])
+        w.update({'kind': 'gate', 'channels': [mval(model, aux['c0']), mval(model, aux['c1'])],
+                  'bins': [{'edges': ex}, {'edges': ey}], 'fractions': [mval(model, aux['f'])], 'sigma': mval(model, aux['sigma'])})
+        return w
+
+    def check(self, I, case, aux, out):
+        c = I.ctx
+        P = c.prove
+        N, D, data, f = aux['N'], aux['D'], aux['data'], aux['f']
+        Lx, Ly = aux['Lx'], aux['Ly']
+        env = getattr(I, 'top_env', {})
+        regate = case['kind'] == 'regate'
+        if out.kind == 'raise':
+            if out.raised('IndexError') and not regate:
+                # np.nonzero(csvH >= n)[0][0] found no bin: the histogram holds fewer than n events in total, which the assumed
+                # contract of np.histogram2d (A-COUNT: the counts add up to the number of in-grid events >= n) excludes
+                cs, n_ = env.get('csvH'), env.get('n')
+                ok = isinstance(cs, NDArr) and n_ is not None
+                P('index-error-only-if-histogram-total-below-target', ok)
+                if ok:
+                    M = I.np.dim_z(cs.shape[0])
+                    P('index-error-only-if-histogram-total-below-target.cumulative', z3.Implies(M >= 1, cs.fn(M - 1) < I.z(n_, 'int')))
+                return
+            P('raises-only-ValueError', out.raised('ValueError'))
+            P('refused-only-for-fraction-outside-0-1', z3.Or(f < 0, f > 1) if not regate else z3.BoolVal(False))
+            return
+        if not regate:
+            P('accepted-fraction-within-0-1', z3.And(0 <= f, f <= 1))
+        v = out.value
+        fields = ['gated_data', 'mask', 'contour', 'bin_edges', 'bin_mask']
+        P('full-output-is-namedtuple', isinstance(v, NT) and v.cls.fields == fields)
+        if not (isinstance(v, NT) and v.cls.fields == fields):
+            return
+        gated, mask, edges, bmask = v.get('gated_data'), v.get('mask'), v.get('bin_edges'), v.get('bin_mask')
+        ok = isinstance(gated, NDArr) and gated.term is not None and gated.term[0] == 'filter' and gated.term[1] is data \
+            and gated.term[2] is mask and mask._fn is gated.term[3] and mask.view_of is None
+        P('gated-data-is-the-input-filtered-by-the-returned-mask', ok)
+        if ok:
+            P('container-kind-preserved', gated.cls == data.cls)
+            if data.cls == 'FCSData':
+                ga = I.np.ensure_attrs(gated)
+                for name in FCS_ATTRS:
+                    if name not in ga:
+                        P('metadata-preserved.' + name, False)
+                    else:
+                        I.prove_forked('metadata-preserved.' + name, lambda name=name: struct_eq(I, ga[name], data.attrs[name]))
+        P('mask-is-plain-bool-array-of-length-N', isinstance(mask, NDArr) and mask.dtype == 'bool' and mask.ndim == 1)
+        P('mask-length', I.np.dim_z(mask.shape[0]) == N)
+        eok = isinstance(edges, Seq) and edges.kind == 'tuple' and len(edges.items) == 2 and all(isinstance(e, NDArr) and e.ndim == 1 for e in edges.items)
+        P('bin-edges-is-a-pair-of-1d-arrays', eok)
+        bok = isinstance(bmask, NDArr) and bmask.ndim == 2 and bmask.dtype == 'bool'
+        P('bin-mask-is-2d-bool', bok)
+        if not (eok and bok and isinstance(mask, NDArr)):
+            return
+        k = c.fresh_int('ed_k')
+        for nm, e, src, L in (('x', edges.items[0], aux['xe'], Lx), ('y', edges.items[1], aux['ye'], Ly)):
+            P('returned-%s-edges-are-the-given-edges' % nm,
+              z3.And(I.np.dim_z(e.shape[0]) == L, z3.Implies(z3.And(0 <= k, k < L), e.fn(k) == src.ufn(k))), assume_after=False)
+        P('bin-mask-shape', z3.And(I.np.dim_z(bmask.shape[0]) == Lx - 1, I.np.dim_z(bmask.shape[1]) == Ly - 1))
+        if regate:
+            a_, b_ = c.fresh_int('bm_a'), c.fresh_int('bm_b')
+            P('returned-bin-mask-is-the-given-one', z3.Implies(z3.And(0 <= a_, a_ < Lx - 1, 0 <= b_, b_ < Ly - 1),
+                                                               bmask.fn(a_, b_) == aux['bm'].ufn(a_, b_)), assume_after=False)
+        # ---- event mapping --------------------------------------------------------------------------------------------
+        cn0 = z3.If(aux['c0'] < 0, aux['c0'] + D, aux['c0'])
+        cn1 = z3.If(aux['c1'] < 0, aux['c1'] + D, aux['c1'])
+        X = lambda i_: data.ufn(i_, cn0)
+        Y = lambda i_: data.ufn(i_, cn1)
+        XE, YE = aux['xe'].ufn, aux['ye'].ufn
+        ingrid = lambda i_: z3.And(XE(0) <= X(i_), X(i_) <= XE(Lx - 1), YE(0) <= Y(i_), Y(i_) <= YE(Ly - 1))
+
+        def inbin(val, E, L, a):
+            return z3.And(0 <= a, a <= L - 2, E(a) <= val, z3.Or(val < E(a + 1), z3.And(a == L - 2, val == E(L - 1))))
+        i = c.fresh_int('ev_i')
+        a, b = c.fresh_int('bin_a'), c.fresh_int('bin_b')
+        BM = bmask.fn
+        # name the filter rank of event i so that the enumeration axioms of the in-grid filter are instantiated for it
+        om = env.get('outlier_mask')
+        evi = env.get('event_indices')
+        sel = getattr(evi, 'filter_sel', None) if isinstance(evi, NDArr) else None
+        hyp = [0 <= i, i < N]
+        if sel is not None and hasattr(sel, 'rank'):
+            c.mention(sel.rank(i))
+        if isinstance(om, NDArr):
+            P('outlier-mask-is-not-in-grid', z3.Implies(z3.And(*hyp), om.fn(i) == z3.Not(ingrid(i))), assume_after=False)
+        P('out-of-grid-event-is-never-kept', z3.Implies(z3.And(*hyp + [z3.Not(ingrid(i))]), z3.Not(mask.fn(i))), assume_after=False)
+        zero_path = (not regate) and 'sidx' not in env          # n == 0: early return, nothing selected
+        G = env.get('H_events')
+        SELf = getattr(getattr(G, 'grid', None), 'selected_by', None)
+        if zero_path:
+            SELf = lambda a_, b_: z3.BoolVal(False)
+        P('internals-visible(event lists per bin, selecting mask)', SELf is not None)
+        if SELf is None:
+            return
+        rngab = z3.And(0 <= a, a < Lx - 1, 0 <= b, b < Ly - 1)
+        P('bins-selected-for-the-event-lists-are-the-bin-mask', z3.Implies(rngab, SELf(a, b) == BM(a, b)), assume_after=False)
+        P('event-kept-iff-its-bin-is-in-the-bin-mask',
+          z3.Implies(z3.And(*hyp + [ingrid(i), inbin(X(i), XE, Lx, a), inbin(Y(i), YE, Ly, b)]), mask.fn(i) == SELf(a, b)), assume_after=False)
+        if regate:
+            return
+        # ---- target count ---------------------------------------------------------------------------------------------
+        n_ = env.get('n')
+        nok = n_ is not None and sel is not None and hasattr(sel, 'cnt')
+        P('internals-visible(n, in-grid filter)', nok)
+        if not nok:
+            return
+        nz, cnt = I.z(n_, 'int'), sel.cnt
+        P('in-grid-count-is-the-count-of-the-not-outlier-filter', isinstance(om, NDArr) and sel.mask_fn is not None)
+        m_i = c.fresh_int('flt_i')
+        P('in-grid-filter-predicate', z3.Implies(z3.And(0 <= m_i, m_i < N), sel.mask_fn(m_i) == ingrid(m_i)), assume_after=False)
+        P('target-is-ceil-of-fraction-times-in-grid-count', z3.And(z3.ToReal(nz) - 1 < f * z3.ToReal(cnt), f * z3.ToReal(cnt) <= z3.ToReal(nz)))
+        if 'sidx' not in env or isinstance(env.get('sidx'), type(None)):
+            # n == 0: nothing is kept
+            P('zero-target-path-only-when-target-is-zero', nz == 0)
+            P('zero-target-keeps-nothing', z3.Implies(z3.And(0 <= i, i < N), z3.Not(mask.fn(i))), assume_after=False)
+            P('zero-target-bin-mask-empty', z3.Implies(z3.And(0 <= a, a < Lx - 1, 0 <= b, b < Ly - 1), z3.Not(BM(a, b))), assume_after=False)
+            return
+        P('cut-path-only-when-target-positive', nz >= 1)
+        # ---- cumulative cut -------------------------------------------------------------------------------------------
+        H, sH, Dn, sidx, svH, csvH, Nidx = (env.get(x_) for x_ in ('H', 'sH', 'D', 'sidx', 'svH', 'csvH', 'Nidx'))
+        iok = all(isinstance(x_, NDArr) for x_ in (H, sH, Dn, sidx, svH, csvH)) and Nidx is not None \
+            and hasattr(H, 'hist_of') and hasattr(csvH, 'cumsum_of') and hasattr(sH, 'smooth_of')
+        P('internals-visible(histogram, smoothed, order, cumulative counts)', iok)
+        if not iok:
+            return
+        ho = H.hist_of
+        P('histogram-is-of-the-two-requested-columns-and-the-given-edges',
+          z3.And(z3.Implies(z3.And(0 <= i, i < N), z3.And(ho['x'](i) == X(i), ho['y'](i) == Y(i))),
+                 I.np.dim_z(ho['n']) == N, I.np.dim_z(ho['xe'].shape[0]) == Lx, I.np.dim_z(ho['ye'].shape[0]) == Ly,
+                 z3.Implies(z3.And(0 <= k, k < Lx), ho['xe'].fn(k) == XE(k)), z3.Implies(z3.And(0 <= k, k < Ly), ho['ye'].fn(k) == YE(k))),
+          assume_after=False)
+        P('smoothing-is-the-gaussian-filter-of-the-histogram-with-the-given-sigma',
+          sH.smooth_of[0] is H and sH.smooth_of[1] is not None and z3.is_expr(I.z(sH.smooth_of[1], 'real')) and
+          z3.eq(I.z(sH.smooth_of[1], 'real'), aux['sigma']))
+        M, row, col, flat = I.np.flat_bijection(I.np.dim_z(H.shape[0]), I.np.dim_z(H.shape[1]))
+        Nz = I.z(Nidx, 'int')
+        S = sidx.fn
+        kk = c.fresh_int('ord_k')
+        P('order-lists-bin-positions', z3.And(I.np.dim_z(sidx.shape[0]) == M, z3.Implies(z3.And(0 <= kk, kk < M), z3.And(0 <= S(kk), S(kk) < M))),
+          assume_after=False)
+        P('cut-index-in-range', z3.And(0 <= Nz, Nz < M))
+        C = csvH.fn
+        P('counts-in-density-order', z3.Implies(z3.And(0 <= kk, kk < M), svH.fn(kk) == H.fn(row(S(kk)), col(S(kk)))), assume_after=False)
+        P('cumulative-counts-recurrence', z3.And(C(0) == svH.fn(0), z3.Implies(z3.And(1 <= kk, kk < M), C(kk) == C(kk - 1) + svH.fn(kk))),
+          assume_after=False)
+        P('cut-reaches-the-target', C(Nz) >= z3.ToReal(nz))
+        # name the rank of position Nidx-1 in the "cumulative count >= n" filter (instantiates its enumeration axioms)
+        nzs = getattr(c, '_nonzero_sels', [])
+        if nzs and hasattr(nzs[-1], 'rank'):
+            c.mention(nzs[-1].rank(Nz - 1))
+        P('cut-is-minimal(dropping the least dense kept bin falls below the target)', z3.Or(Nz == 0, C(Nz - 1) < z3.ToReal(nz)))
+        # ---- bin mask = first Nidx+1 bins of the density order; density order ---------------------------------------------
+        # sidx is the ascending argsort P read backwards; "the first Nidx+1 bins of the descending order" is stated over P:
+        # bin (a, b) is kept iff its flat position is P(p) for some p in [M-1-Nidx, M)
+        perm = getattr(sidx.view_of, 'perm', None) if sidx.view_of is not None else getattr(sidx, 'perm', None)
+        P('internals-visible(argsort permutation)', perm is not None)
+        if perm is None:
+            return
+        Pf, Qf, vfn = perm
+        P('order-is-the-ascending-argsort-read-backwards', z3.Implies(z3.And(0 <= kk, kk < M), S(kk) == Pf(M - 1 - kk)), assume_after=False)
+        tq = c.fresh_int('flat_t')
+        P('argsort-is-of-the-flattened-normalised-density', z3.Implies(z3.And(0 <= tq, tq < M), vfn(tq) == Dn.fn(row(tq), col(tq))), assume_after=False)
+        pq = z3.Int('bmp')
+        kept = lambda a_, b_: z3.Exists([pq], z3.And(M - 1 - Nz <= pq, pq < M, Pf(pq) == flat(a_, b_)), patterns=[Pf(pq)])
+        a2, b2 = c.fresh_int('bin_a2'), c.fresh_int('bin_b2')
+        rng2 = z3.And(0 <= a2, a2 < Lx - 1, 0 <= b2, b2 < Ly - 1)
+        # the two directions separately; "in the densest end => in the bin mask" for an explicit sorted position p0 (the index
+        # of the accepted-bin list it corresponds to, M-1-p0, is named so that the store's existential can be instantiated)
+        acc = env.get('accepted_bin_indices')
+        accf = I.np.named_fn(acc.fn) if isinstance(acc, NDArr) else None
+        for tag, (aa, bb, rr) in (('', (a, b, rngab)), ('(second bin)', (a2, b2, rng2))):
+            p0 = c.fresh_int('sorted_pos')
+            if accf is not None:
+                c.mention(accf(M - 1 - p0))
+            P('a-bin-at-the-densest-end-of-the-sorted-order-is-in-the-bin-mask' + tag,
+              z3.Implies(z3.And(rr, M - 1 - Nz <= p0, p0 < M, Pf(p0) == flat(aa, bb)), BM(aa, bb)), assume_after=False)
+            P('a-bin-in-the-bin-mask-is-at-the-densest-end-of-the-sorted-order' + tag, z3.Implies(z3.And(rr, BM(aa, bb)), kept(aa, bb)))
+            # proved for an arbitrary position p0, hence for all: generalised and used as a lemma
+            pz = z3.Int('sorted_p')
+            c.assume(z3.Implies(rr, z3.ForAll([pz], z3.Implies(z3.And(M - 1 - Nz <= pz, pz < M, Pf(pz) == flat(aa, bb)), BM(aa, bb)), patterns=[Pf(pz)])))
+        c.mention(Qf(flat(a2, b2)))      # names the sorted position of the second bin (instantiates the permutation axioms)
+        # first over the sorted order alone (order, permutation, flattening), then carried over to the bin mask
+        P('a-bin-in-the-densest-end-is-at-least-as-dense-as-a-bin-outside-it',
+          z3.Implies(z3.And(rngab, rng2, kept(a, b), z3.Not(kept(a2, b2))), Dn.fn(a, b) >= Dn.fn(a2, b2)))
+        P('no-kept-bin-is-less-dense-than-a-dropped-bin', z3.Implies(z3.And(rngab, rng2, BM(a, b), z3.Not(BM(a2, b2))), Dn.fn(a, b) >= Dn.fn(a2, b2)),
+          assume_after=False)
+        tot = getattr(c, '_last_total', None)
+        P('internals-visible(total of the smoothed histogram)', tot is not None)
+        if tot is not None:
+            # np.sum(sH) > 0 is a property of the Gaussian filter of a non-negative histogram holding at least one event (A-LIB)
+            P('density-is-the-smoothed-histogram-over-its-total',
+              z3.Implies(z3.And(rngab, tot > 0), Dn.fn(a, b) * tot == sH.fn(a, b)), assume_after=False)
+        import os
+        if os.environ.get('DBG_FALSE'):
+            P('debug-false', z3.BoolVal(False), assume_after=False)
+
+
+CONTRACTS.append(Density2d())
